@@ -689,7 +689,7 @@ func c02BackShape(parent string, x *c02Node, memo map[string]bool) string {
 		}
 	}
 	if printerFails {
-		return c02Shape(x)
+		return c02BuildShape(x)
 	}
 	if x.kind == 'j' && c02HasJoinBelow(x) {
 		return "nested-join-written-back"
@@ -770,6 +770,34 @@ func c02Shape(x *c02Node) string {
 		}
 	}
 	return "unknown"
+}
+
+// c02BuildShape is c02Shape for the printer clause, except that a span with a 3' marker is
+// named by HOW the printer fails on it: the one known way (the marker appended after the end
+// number, "n..m>" where INSDC writes "n..>m", everything else right) keeps the class
+// three-prime-marker-placement; any other wrong text for such a span (marker lost, doubled,
+// other coordinates) is three-prime-marker-span-miswritten, so that a new defect on the same
+// shape is not taken for the recorded one.
+func c02BuildShape(x *c02Node) string {
+	if x.kind != 's' || !x.gt {
+		return c02Shape(x)
+	}
+	loc, ok := c02ToLoc(x)
+	if !ok {
+		return c02Shape(x)
+	}
+	var text string
+	if p := c02Try(func() { text = BuildLocationString(loc) }); p != "" {
+		return "three-prime-marker-span-miswritten"
+	}
+	knownForm := strconv.Itoa(x.n) + ".." + strconv.Itoa(x.m) + ">"
+	if x.lt {
+		knownForm = "<" + knownForm
+	}
+	if text == knownForm {
+		return "three-prime-marker-placement"
+	}
+	return "three-prime-marker-span-miswritten"
 }
 
 type c02Runs struct {
@@ -883,7 +911,7 @@ func (r *c02Runs) check(parent string, x *c02Node, memo map[string]bool) {
 		r.build.Case(key, ops > 0 || marker)
 	}
 	if ok && buildS != "" {
-		r.report(r.build, parent, x, memo, func(y *c02Node, d bool) string { _, _, p := c02StructCheck(parent, y); return p })
+		r.reportAs(r.build, "nsdc", "location=", c02BuildShape, parent, x, memo, func(y *c02Node, d bool) string { _, _, p := c02StructCheck(parent, y); return p })
 	}
 	if parsed && c02BackCheck(parent, x, parsedLoc) != "" {
 		r.reportAs(r.build, "back", "parsed from text, then written back: location=", func(y *c02Node) string { return c02BackShape(parent, y, memo) },
